@@ -209,7 +209,22 @@ def universal(func_node):
         if isinstance(v, ast.Call) and isinstance(v.func, ast.Name) and v.func.id == 'all' and len(v.args) == 1 and isinstance(v.args[0], (ast.GeneratorExp, ast.ListComp)):
             ge = v.args[0]
             if len(rets) - sum(1 for x in rets if isinstance(x.value, ast.Constant) and x.value.value is False) == 1:
-                return {'gens': [(norm(g.target), norm(g.iter)) for g in ge.generators], 'pred': canon_test(ge.elt),
+                gens = []
+                for g in ge.generators:
+                    it = g.iter
+                    # `elements = chain.from_iterable(X for a in A)` ... `for e in elements`  is  `for a in A for e in X`
+                    if isinstance(it, ast.Name):
+                        b = [s_.value for s_ in walk_own(func_node) if isinstance(s_, ast.Assign) and len(s_.targets) == 1 and isinstance(s_.targets[0], ast.Name) and s_.targets[0].id == it.id]
+                        if len(b) == 1:
+                            it = b[0]
+                    if isinstance(it, ast.Call) and norm(it.func) in ('chain.from_iterable', 'itertools.chain.from_iterable') and len(it.args) == 1 and \
+                            isinstance(it.args[0], (ast.GeneratorExp, ast.ListComp)) and len(it.args[0].generators) == 1 and not it.args[0].generators[0].ifs:
+                        inner = it.args[0]
+                        gens.append((norm(inner.generators[0].target), norm(inner.generators[0].iter)))
+                        gens.append((norm(g.target), norm(inner.elt)))
+                    else:
+                        gens.append((norm(g.target), norm(g.iter)))
+                return {'gens': gens, 'pred': canon_test(ge.elt),
                         'filters': [canon_test(i) for g in ge.generators for i in g.ifs]}
     loops = [l for l in walk_own(func_node) if isinstance(l, ast.For)]
     if not loops:
